@@ -93,6 +93,7 @@ func tierN(tier string, q, t int) int {
 func C15() *engine.Check {
 	parse := &engine.Sub{
 		Name: "parse",
+		Repeat: true,
 		Rule: "every string over {/,a,b,A,é,É} up to the length bound is offered to command.Parse; non-trivial = accepted by the reference grammar or by Parse",
 		Bound: func(t string) string { return fmt.Sprintf("length<=%d symbols", tierN(t, 6, 8)) },
 		Gen: func(tier string, emit func(any) bool) {
@@ -138,6 +139,7 @@ func C15() *engine.Check {
 
 	pairs := &engine.Sub{
 		Name: "covers-pairs",
+		Repeat: true,
 		Rule: "every ordered pair of valid commands up to the length bound; Covers compared with the reference segment-prefix relation; antisymmetry, reflexivity, top; non-trivial = pairs sharing a textual prefix",
 		Bound: func(t string) string { return fmt.Sprintf("both commands length<=%d symbols", tierN(t, 6, 7)) },
 		Gen: func(tier string, emit func(any) bool) {
